@@ -11,11 +11,11 @@ import (
 type jmap = map[string]interface{}
 
 var (
-	genKeys       = []string{"a", "b", "c", "x-1", "$schema", "id", "a.a", "é", "headers"}
+	genKeys       = []string{"a", "b", "c", "x-1", "$schema", "id", "a.a", "é", "headers", "a%d", "100%"}
 	schemaishKeys = []string{"type", "items", "default", "example", "examples", "properties", "a"}
 	genStrings    = []string{"", "a", "ab", "abc", "héllo", "日本", "2020-01-01", "not-a-date", "x-1", "user@example.com", "aaa"}
 	genNumbers    = []string{"0", "1", "-1", "2", "3", "1.5", "2.5", "-3.5", "3.0", "10", "100", "0.1", "0.3", "7", "1e3", "4", "6", "0.5", "-2"}
-	genPatterns   = []string{"^a", "a+", "^[a-z]+$", "^x-", "(", "\\d+", ".*", "^é", "b$"}
+	genPatterns   = []string{"^a", "a+", "^[a-z]+$", "^x-", "(", "\\d+", ".*", "^é", "b$", "^a$", "^ab$", "^x-1$", "(?i)^A"}
 	genFormats    = []string{"date", "date-time", "email", "uuid", "unknown-format"}
 	genTypes      = []string{"null", "boolean", "string", "number", "integer", "array", "object"}
 )
@@ -177,6 +177,13 @@ func (g *sgen) schema(depth int, allowRef bool) jmap {
 				req := make([]interface{}, n)
 				for j := range req {
 					req[j] = g.pick(g.keys())
+				}
+				if g.rng.Intn(5) == 0 { // a longer list with a name repeated in the middle: anything that compacts or sorts the caller's slice shows
+					a, b, c := g.pick(g.keys()), g.pick(g.keys()), g.pick(g.keys())
+					req = []interface{}{a, b, a, c}
+					if g.rng.Intn(2) == 0 {
+						req = append(req, b)
+					}
 				}
 				s["required"] = req
 			}
